@@ -416,3 +416,84 @@ def c11_strand_vote_mirror(tier, rng):
                                      "observed": {"original": a, "mirror": b}, "required": "mirror == swapped original"})
     return {"obligations": obl, "discharged": dis, "violations": viol, "cases": obl, "exhaustive": True,
             "bound": "all strand assignments of <= 5 introns x 4 tail flag pairs", "samples": [{"intron_strands": ["+", "-"], "has_polya": True}]}
+
+
+# ---- attaching transcript ends to an intron: the start side is the mirror image of the end side -----------------------------------------------------
+def _attach_ends_mirror_problems(seed):
+    """random tables of tail-confirmed and plain read-end positions behind an intron through the real IntronGraph.attach_transcpt_ends with
+    read_end=True, and the mirror image (positions and intron reflected, tables filled in the same order) with read_end=False: the attached
+    start vertices are the mirror images of the attached end vertices (polyA <-> polyT, read end <-> read start)"""
+    import random
+    import types
+    from collections import defaultdict
+    ig = native.repo_import("src/intron_graph.py")
+    rng = random.Random(seed)
+    L = 100000
+    problems = []
+    for _ in range(40):
+        d = rng.choice((5, 10, 50))
+        intron = (10000, 12000)
+        m_intron = (L - intron[1], L - intron[0])
+        base = intron[1] + 200
+        npos = rng.randint(0, 4)
+        polya = [(base + rng.choice([0, d, d + 1, 2 * d, 3 * d, 5 * d, 7 * d + 3]) + rng.randint(0, 2), rng.randint(1, 9)) for _ in range(npos)]
+        reads = [(base + rng.choice([-d, 0, d, 2 * d, 4 * d, 6 * d, 8 * d, 12 * d]) + rng.randint(0, 2), rng.randint(1, 6)) for _ in range(rng.randint(0, 5))]
+        neigh = [(intron[1] + 5000 + 100 * k, intron[1] + 6000 + 100 * k) for k in range(rng.randint(0, 2))]
+        cov = {n: rng.randint(1, 40) for n in neigh}
+        params = types.SimpleNamespace(apa_delta=d, terminal_position_abs=rng.choice([1, 2]), terminal_position_rel=rng.choice([0.05, 0.1, 0.5]),
+                                       terminal_internal_position_rel=rng.choice([0.05, 0.1, 0.5]))
+
+        def graph(mirror):
+            g = ig.IntronGraph.__new__(ig.IntronGraph)
+            g.params = params
+            g.outgoing_edges, g.incoming_edges = defaultdict(set), defaultdict(set)
+            g.terminal_known_positions, g.starting_known_positions = defaultdict(list), defaultdict(list)
+            g.intron_collector = types.SimpleNamespace(clustered_introns={})
+            me = m_intron if mirror else intron
+            g.intron_collector.clustered_introns[me] = 50
+            for n in neigh:
+                mn = (L - n[1], L - n[0]) if mirror else n
+                g.intron_collector.clustered_introns[mn] = cov[n]
+                (g.incoming_edges if mirror else g.outgoing_edges)[me].add(mn)
+            pa, rd = defaultdict(lambda: defaultdict(int)), defaultdict(lambda: defaultdict(int))
+            for p, c in polya:
+                pa[me][(L - p) if mirror else p] += c
+            for p, c in reads:
+                rd[me][(L - p) if mirror else p] += c
+            g.attach_transcpt_ends(me, pa, rd, read_end=not mirror)
+            edges = (g.incoming_edges if mirror else g.outgoing_edges)[me]
+            return sorted((v[0], (L - v[1]) if mirror else v[1]) for v in edges if v[0] < 0)
+        try:
+            a, b = graph(False), graph(True)
+        except AssertionError:
+            continue
+        swap = {ig.VERTEX_polyt: ig.VERTEX_polya, ig.VERTEX_read_start: ig.VERTEX_read_end}
+        b = sorted((swap.get(t, t), p) for t, p in b)
+        if a != b:
+            problems.append("apa_delta %d, tail-confirmed %s, read ends %s, neighbours %s, %s: end side attaches %s, the mirror image attaches %s (as end-side vertices)"
+                            % (d, polya, reads, sorted(cov.items()), vars(params), a, b))
+            break
+    return problems
+
+
+def replay_attach_ends(d):
+    p = _attach_ends_mirror_problems(d["inputs"]["seed"])
+    return (not p), "seed %s: %s" % (d["inputs"]["seed"], p[:1] or "start side mirrors end side")
+
+
+@bounded("C11.attach_ends_mirror", ["C11", "C04"], note="the real IntronGraph.attach_transcpt_ends on random tables of tail-confirmed and plain read-end positions "
+         "(0-4 and 0-5 positions at multiples of apa_delta behind an intron, 0-2 neighbouring introns, random thresholds) with read_end=True, "
+         "against the mirror image with read_end=False: the attached polyT / read-start vertices are the mirror images of the polyA / read-end vertices")
+def c11_attach_ends(tier, rng):
+    n = 50 if tier == "quick" else 2000
+    base = rng.randrange(10 ** 9)
+    for k in range(n):
+        try:
+            p = _attach_ends_mirror_problems(base + k)
+        except Exception as e:
+            p = ["exception %s: %s" % (type(e).__name__, e)]
+        if p:
+            return {"cases": (k + 1) * 40, "bound": "random tables", "violations": [{
+                "obligation": "C11.attach_ends_mirror", "inputs": {"seed": base + k}, "observed": p[:2],
+                "required": "start side = mirror image of end side", "replay_call": "contracts.c_equivariance:replay_attach_ends"}]}
+    return {"cases": n * 40, "bound": "%d x 40 random tables" % n, "violations": [], "samples": [{"seed": base}]}
